@@ -26,6 +26,14 @@ CHECKS = {
          "Enumerates the (|L|,|R|) grid against circuits of every small size through verify and batch_verify, identity/special values in every slot, stream faults at every offset; samples random and structure-aware garbage under a counting allocator. No panic, abort or out-of-bounds; decode memory linear in input."),
  "C16": ("exploration", "3.C16", "replica lockstep simulation: one call history applied step by step to real Prover, real Verifier and RefCS; missing-assignment fault",
          "Two mirrored state machines driven in lockstep with a model; invariant after every call: equal handles and gate counts. Phase 2 executes inside real prove/verify for a sampled subset. F15 checks the MissingAssignment error and an unchanged allocation cursor."),
+ "C11": ("fault_enumeration", "3.C11", "torn-write / invalid-element / stream fault enumeration on encodings of proofs of every size, with an independent layout model",
+         "For one proof per (curve, gate count 0..gmax, phase kind): determinism, round trip, verdict, size law, RefCodec agreement; every strict prefix; every scalar slot x non-canonical values; every point slot x off-curve / invalid-flag / small-order / torsion-shifted points; reader and writer faults. Rejections must be FormatError."),
+ "C12": ("exploration", "3.C12", "deterministic simulation of a stateful generator store under generated histories (increase, persist/reload, clone, views, threads, fresh process) against RefGens and pinned digests",
+         "Histories of capacity increases with persistence and reload mid-history; after every op every generator equals the independent RefGens derivation; all (n, m) views incl. n = 0; size_hint exact at every step; 8 threads and a fresh process agree; distinctness, subgroup membership and digests pinned from the reference revision."),
+ "C17": ("fault_enumeration", "3.C17", "resource-shortage enumeration: every (n1, n2, prover capacity, verifier capacity) cell through prove, verify and batch_verify",
+         "Exhaustive grid of gate counts and capacities on both sides (and 1..3 parties): insufficient-generators error exactly below the padded threshold, never a panic, proof bytes independent of slack, accept at and above the threshold."),
+ "C18": ("exploration", "3.C18", "replay of persisted artefacts of the reference revision (proofs, commitments, wrong statements, schedules, generator digests) on the current tree, plus fresh sessions against the recorded schedule",
+         "Durability-across-upgrade: what the reference revision wrote must still be read and mean the same. Fixtures recorded once from the reference revision; the reference models stand in for the other version in mixed-version pairs."),
 }
 
 NOT_APPLICABLE = {
